@@ -7,7 +7,7 @@ From L2 Require Import Model.
 Lemma stepF_code T s a : stepF code_ffacts T s a = step T s a.
 Proof.
   unfold stepF. destruct (actors s !! a) as [ac|] eqn:Ea; [|unfold step; by rewrite Ea].
-  destruct (stack ac) as [|fr rest] eqn:Est; [done|]. destruct fr; try done. by destruct w.
+  destruct (stack ac) as [|fr rest] eqn:Est; [done|]. destruct fr; try done; [by destruct w|by destruct pc].
 Qed.
 Lemma runF_code T tr : forall s, runF code_ffacts T s tr = run T s tr.
 Proof.
